@@ -434,6 +434,37 @@ def fair_atom_renaming(R):
     R.cov['atom_renaming_with_fairness'] = {'queries': len(meta), 'differences': nbad, 'known_finding_cases': kf}
 
 
+def inplace_renaming(R):
+    """atoms renamed IN PLACE: the same Kripke object is asked, relabelled through replace_labelling_function with its atoms renamed
+    (a swap p <-> q, or fresh names), asked the consistently renamed formula, renamed back and asked the original again - all three answers
+    must be the same set (the theorem C06_rename_atoms speaks about the value of K; nothing remembered about the OBJECT from an earlier
+    call may enter).  Model-free."""
+    rng = random.Random(R.seed + 606)
+    nb = 0
+    for _ in range(900 if R.thorough else 90):
+        aps = ('p', 'q')
+        kd = rand_kripke(rng, rng.randint(1, 4), aps)
+        K = kd_py(kd)
+        sigma = {'p': 'q', 'q': 'p'} if rng.random() < 0.5 else dict(zip(aps, fresh_names(rng, 2, avoid=aps)))
+        back = {v: k for k, v in sigma.items()}
+        for lg, f in gen_formulas(rng, aps):
+            R.evaluations += 1
+            a1 = impl_mc(lg, K, f)
+            K.replace_labelling_function({s_: set(sigma[a] for a in K.labels(s_)) for s_ in K.states()})
+            a2 = impl_mc(lg, K, rename_formula(f, sigma))
+            K.replace_labelling_function({s_: set(back[a] for a in K.labels(s_)) for s_ in K.states()})
+            a3 = impl_mc(lg, K, f)
+            if not (a1 == a2 == a3):
+                nb += 1
+                if nb <= 5:
+                    R.violation('%s.modelcheck: the answer changes when the atoms of the SAME structure object are renamed in place (and back)' % lg,
+                                {'stream': 'in-place renaming', 'logic': lg, 'kripke': kd_json(kd), 'formula': f, 'formula_str': fstr(f), 'sigma': sigma,
+                                 'answer_before': a1, 'answer_after_renaming': a2, 'answer_after_renaming_back': a3})
+            elif a1[0] == 'ok' and 0 < len(a1[1]) < len(kd['S']):
+                R.nontriv(('inplace', json.dumps(kd_json(kd), sort_keys=True), lg, f))
+    R.cov['inplace_renaming'] = {'differences': nb}
+
+
 def run(R):
     R.rule = ('(K, f) with K random (2..6 states, atoms {p,q} or {p,q,r}) or a 2-state structure and one formula per logic (CTL state formula depth <= 3, '
               'A g with g of depth 2-3 and <= 4 temporal operators, CTL* state formula depth <= 3 with nested quantifiers), each with a temporal operator. '
@@ -449,6 +480,7 @@ def run(R):
               'presentation, compute_SCCs / reachable sets as sets of sets. non-trivial = answer neither empty nor all states and at least one variant '
               'whose observed iteration orders (states, successor sets, label sets) differ from the base; distinct by (K, logic, f)')
     fair_atom_renaming(R)
+    inplace_renaming(R)
     rng = R.rng
     th = R.thorough
     base = gen_base(R, 5000 if th else 500)
@@ -654,6 +686,23 @@ def run(R):
 
 
 def replay(R, data):
+    if data['data'].get('stream') == 'in-place renaming':
+        import mccheck
+        d = data['data']
+        kd = kd_from_json(d['kripke'])
+        f = mccheck.detuple(d['formula'])
+        sigma = d['sigma']
+        back = {v: k for k, v in sigma.items()}
+        K = kd_py(kd)
+        a1 = impl_mc(d['logic'], K, f)
+        K.replace_labelling_function({s_: set(sigma[a] for a in K.labels(s_)) for s_ in K.states()})
+        a2 = impl_mc(d['logic'], K, rename_formula(f, sigma))
+        K.replace_labelling_function({s_: set(back[a] for a in K.labels(s_)) for s_ in K.states()})
+        a3 = impl_mc(d['logic'], K, f)
+        print('before:', a1, ' renamed in place:', a2, ' renamed back:', a3)
+        if not (a1 == a2 == a3):
+            R.violation('replayed: the answer changes under an in-place renaming of the atoms', d)
+        return
     if data['data'].get('stream') == 'atom renaming with fairness':
         import mccheck
         d = data['data']
